@@ -141,6 +141,12 @@ class GraphicalModel:
         kopy = self.__class__()
         # Copy the source net
         kopy.source_net = nx.DiGraph(self.source_net)
+        # nx.DiGraph copies the node dictionaries only at the top level: give the copy its own
+        # state dictionaries so that editing a node of the copy does not alter the original
+        for name in kopy.source_net.nodes:
+            node = kopy.source_net.nodes[name]
+            if 'attr_dict' in node:
+                node['attr_dict'] = node['attr_dict'].copy()
         return kopy
 
     def __copy__(self, *args, **kwargs):
